@@ -30,7 +30,7 @@ def build_cases(tier, seed):
         if i % 4 == 0:
             # a co-simulation client adds requests of no fleet between calls (built-in control: "at most one vehicle per request")
             prof["fleets"] = [2, 3][(i // 4) % 2]
-            opts = {"inject_requests": {"every": 5, "public": True}}
+            opts = {"inject_requests": {"every": 5, "public": True}, "cosim_ops": {"every": 13, "kinds": ["add_vehicle"]}}
         cases.append(trace_case("C17", i, s, prof, ctrl, steps, ["C17"], opts=opts))
     cases += systematic_cases("C17", tier, seed)
     if tier == "thorough":
